@@ -42,6 +42,10 @@ def snapshot(v, memo=None):
         return OptV(v.is_none, snapshot(v.val, memo))
     if isinstance(v, RecV):
         return RecV(v.name, {k: snapshot(x, memo) for k, x in v.comps.items()})
+    if isinstance(v, V.Recorder):
+        r = V.Recorder(v.name)
+        r.calls = PyList(list(v.calls.items))
+        return r
     if isinstance(v, V.SymClosure):
         c = V.SymClosure(v.tag, v.sites, v.slots, None)
         memo[id(v)] = c
